@@ -434,7 +434,7 @@ func ghostInstrument(fd *ast.FuncDecl) string {
 	}
 	switch id.Name {
 	case "Message":
-		if len(fd.Recv.List[0].Names) == 1 && fd.Recv.List[0].Names[0].Name != "_" {
+		if len(fd.Recv.List[0].Names) == 1 && fd.Recv.List[0].Names[0].Name != "_" && fd.Name.Name != "IsHijacked" {
 			r := fd.Recv.List[0].Names[0].Name
 			call := schedCall("ZZGhostUse", ast.NewIdent(r), schedCall("ZZInPool"))
 			call.Fun.(*ast.SelectorExpr).Sel = ast.NewIdent("ZZGhostUse")
